@@ -1696,6 +1696,12 @@ func (k *tsmBatchKeyIterator) EstimatedIndexSize() int {
 // Next returns true if there are any values remaining in the iterator.
 func (k *tsmBatchKeyIterator) Next() bool {
 RETRY:
+	// A block that could not be read or decoded stays queued and every further merge of its key
+	// fails the same way.  Stop here; the caller gets the errors from Err() and fails the compaction.
+	if len(k.errs) > 0 {
+		return false
+	}
+
 	// Any merged blocks pending?
 	if len(k.merged) > 0 {
 		k.merged = k.merged[1:]
